@@ -290,7 +290,8 @@ def native_table(rng, ncases, max_wf=None, trough=None, L=None):
             smp = smp[smp > tr]                    # spike index 0 is valid
         nsp = smp.size
         nun = int(rng.integers(1, 5))
-        ids = np.sort(rng.choice(np.arange(0, 50), nun, replace=False))
+        # unit labels as sorters write them: any integers, the noise / unsorted labels -1 and 0 among them
+        ids = np.sort(rng.choice(np.arange(0, 50), nun, replace=False)) if t % 2 else np.sort(rng.choice(np.r_[-2, -1, 0, 1, np.arange(5, 40)], nun, replace=False))
         clu = ids[rng.integers(0, nun, nsp)].astype(np.int64)
         if t % 3 == 0:
             clu[0] = ids[0]
